@@ -286,6 +286,9 @@ def chunked(items: list[Any], n: int) -> Iterable[list[Any]]:
 def run_check(prop: str, tier: str, seed: int, jobs: int, budget_s: float) -> int:
     t0 = time.time()
     mod = _load(prop)
+    from . import simenv
+
+    simenv.sweep_stale_sandboxes()
     print(f"VERIF_SEED={seed} property={prop} tier={tier} jobs={jobs} repo={core.REPO}")
     plan = mod.plan(tier)  # {"fixed": [...cases], "seeded": n, "chunk": k, "wall_cap_s": s}
     fixed: list[Any] = list(plan.get("fixed") or [])
